@@ -50,6 +50,57 @@ def local_used(b, l):
     return False
 
 
+def identify_edges_rules(cx):
+    """manifold guard, boundary-map entries and face_edges of identify_edges (shared with C20: the flattening works on these tables)"""
+    # ---------------------------------------------------------------- GUARD / ORDER identify_edges, unique_edges
+    b = cx.fn(f'{ED}::identify_edges')
+    if b:
+        errs = [s for s, d in cx.rets(b) if d[0] == 'agg' and d[1].endswith('Result::Err')]
+        any_pat = '(call Iter::any (call *unique_edges (call *naive_edges (param faces))) (closure *))'
+        cx.ob('GUARD', 'identify_edges:err-under-nonmanifold', len(errs) == 1 and cx.guarded(b, errs[0].bb, any_pat, True) is not None,
+              'Err is returned exactly under any(count > 2)', where=errs[0] if errs else b.file)
+        for cl in cx.facts.closures_of(b.name):
+            if cl.name.endswith('{closure#0}'):
+                cx.expect('GUARD', 'identify_edges:nonmanifold-predicate', cx.retval(cl), '(lt 2 (field 1 (param 2)))', 'the predicate is count > 2', where=cl.file)
+        for glob, what in (('HashMap::new', 'map construction'), (f'{ED}::boundary_loops', 'the boundary walk'), ('HashMap::insert', 'boundary-map insertion')):
+            for s in b.calls(glob):
+                cx.ob('GUARD', f'identify_edges:manifold-first:{glob.split("::")[-1]}@bb{0}', cx.guarded(b, s.bb, any_pat, False) is not None,
+                      f'{what} happens only after the manifold test passed', where=s)
+        # boundary map: (v0 -> v1) of naive edge j enters exactly under count[unique index of edge j] == 1
+        ins = b.calls('HashMap::insert')
+        seen = set()
+        for s in ins:
+            k, v = cx.arg(s, 1), cx.arg(s, 2)
+            e = match('(index (index (itervar (call slice::chunks (call *naive_edges (param faces)) 3)) $j) 0)', k)
+            e2 = match('(index (index (itervar (call slice::chunks (call *naive_edges (param faces)) 3)) $j) 1)', v, e) if e else None
+            g = None
+            if e2:
+                g = cx.guarded(b, s.bb, '(eq 1 (field 1 (index (call *unique_edges _) (call HashMap::index _ (call *edge_key (index (itervar _) $j))))))', True, e2)
+                seen.add(e2['j'])
+            # ... and under nothing else: no literal about ANOTHER edge's count may stand in front of the insertion (an `else if`
+            # chain would drop the second boundary edge of an ear triangle)
+            indep = True
+            for a, pol in cx.guards(b, s.bb):
+                ec = match('(eq 1 (field 1 (index (call *unique_edges _) $x)))', a)
+                if ec is not None and not (pol and e2 and match('(call HashMap::index _ (call *edge_key (index (itervar _) $j)))', ec['x'], e2) is not None):
+                    indep = False
+            cx.ob('GUARD', f'identify_edges:boundary-entry:{show(e2["j"]) if e2 else "?"}', e2 is not None and g is not None and indep,
+                  'directed edge j of the face enters the boundary map as (start -> end) exactly when the count of ITS OWN undirected key is 1 (and whatever the counts of the other two edges are)', where=s,
+                  found=f'key={show(k)[:200]} guards={cx.show_guards(b, s.bb)[:3]}')
+        cx.ob('GUARD', 'identify_edges:boundary-entry:all-three', seen == {('const', 0), ('const', 1), ('const', 2)}, 'all three edges of each face are examined',
+              found=str(sorted(show(x) for x in seen)))
+        # face_edges[f] = unique indices of the keys of that face's own three naive edges, in order
+        pushes = [s for s in b.calls('Vec::push')]
+        okp = False
+        for s in pushes:
+            d = cx.arg(s, 1)
+            e = match('(agg array (0 (call HashMap::index $m (call *edge_key (index $c 0)))) (1 (call HashMap::index $m (call *edge_key (index $c 1)))) '
+                      '(2 (call HashMap::index $m (call *edge_key (index $c 2)))))', d)
+            if e and match('(itervar (call slice::chunks (call *naive_edges (param faces)) 3))', e['c']):
+                okp = True
+        cx.ob('EXPR', 'identify_edges:face_edges', okp, 'face_edges[f] = [index(key(edge0)), index(key(edge1)), index(key(edge2))] of the same face chunk, in order')
+
+
 def insert_rule(cx, fname, floor):
     b = cx.fn(fname)
     if b is None:
@@ -116,46 +167,7 @@ def run(cx):
         cx.ob('EXPR', 'patches::make_sym:symmetric', ok, 'make_sym returns (a,b) when a<b and (b,a) otherwise: a function of the unordered pair', where=b.file,
               found='; '.join(show(d) for _, d in rets))
 
-    # ---------------------------------------------------------------- GUARD / ORDER identify_edges, unique_edges
-    b = cx.fn(f'{ED}::identify_edges')
-    if b:
-        errs = [s for s, d in cx.rets(b) if d[0] == 'agg' and d[1].endswith('Result::Err')]
-        any_pat = '(call Iter::any (call *unique_edges (call *naive_edges (param faces))) (closure *))'
-        cx.ob('GUARD', 'identify_edges:err-under-nonmanifold', len(errs) == 1 and cx.guarded(b, errs[0].bb, any_pat, True) is not None,
-              'Err is returned exactly under any(count > 2)', where=errs[0] if errs else b.file)
-        for cl in cx.facts.closures_of(b.name):
-            if cl.name.endswith('{closure#0}'):
-                cx.expect('GUARD', 'identify_edges:nonmanifold-predicate', cx.retval(cl), '(lt 2 (field 1 (param 2)))', 'the predicate is count > 2', where=cl.file)
-        for glob, what in (('HashMap::new', 'map construction'), (f'{ED}::boundary_loops', 'the boundary walk'), ('HashMap::insert', 'boundary-map insertion')):
-            for s in b.calls(glob):
-                cx.ob('GUARD', f'identify_edges:manifold-first:{glob.split("::")[-1]}@bb{0}', cx.guarded(b, s.bb, any_pat, False) is not None,
-                      f'{what} happens only after the manifold test passed', where=s)
-        # boundary map: (v0 -> v1) of naive edge j enters exactly under count[unique index of edge j] == 1
-        ins = b.calls('HashMap::insert')
-        seen = set()
-        for s in ins:
-            k, v = cx.arg(s, 1), cx.arg(s, 2)
-            e = match('(index (index (itervar (call slice::chunks (call *naive_edges (param faces)) 3)) $j) 0)', k)
-            e2 = match('(index (index (itervar (call slice::chunks (call *naive_edges (param faces)) 3)) $j) 1)', v, e) if e else None
-            g = None
-            if e2:
-                g = cx.guarded(b, s.bb, '(eq 1 (field 1 (index (call *unique_edges _) (call HashMap::index _ (call *edge_key (index (itervar _) $j))))))', True, e2)
-                seen.add(e2['j'])
-            cx.ob('GUARD', f'identify_edges:boundary-entry:{show(e2["j"]) if e2 else "?"}', e2 is not None and g is not None,
-                  'directed edge j of the face enters the boundary map as (start -> end) exactly when the count of ITS OWN undirected key is 1', where=s,
-                  found=f'key={show(k)[:200]} guards={cx.show_guards(b, s.bb)[:3]}')
-        cx.ob('GUARD', 'identify_edges:boundary-entry:all-three', seen == {('const', 0), ('const', 1), ('const', 2)}, 'all three edges of each face are examined',
-              found=str(sorted(show(x) for x in seen)))
-        # face_edges[f] = unique indices of the keys of that face's own three naive edges, in order
-        pushes = [s for s in b.calls('Vec::push')]
-        okp = False
-        for s in pushes:
-            d = cx.arg(s, 1)
-            e = match('(agg array (0 (call HashMap::index $m (call *edge_key (index $c 0)))) (1 (call HashMap::index $m (call *edge_key (index $c 1)))) '
-                      '(2 (call HashMap::index $m (call *edge_key (index $c 2)))))', d)
-            if e and match('(itervar (call slice::chunks (call *naive_edges (param faces)) 3))', e['c']):
-                okp = True
-        cx.ob('EXPR', 'identify_edges:face_edges', okp, 'face_edges[f] = [index(key(edge0)), index(key(edge1)), index(key(edge2))] of the same face chunk, in order')
+    identify_edges_rules(cx)
     b = cx.fn(f'{ED}::naive_edges')
     if b:
         ps = [cx.arg(s, 1) for s in b.calls('Vec::push')]
